@@ -1020,8 +1020,12 @@ def _phase3_extra(tr_or_none):
                  f"def instance_state_writes : StateWrites := [{cells}]\n"
                  f"def classes_scanned : Nat := {ncls}\n\n")
         st["instance_state_writes"] = "translated"
+        er = data_early_returns(tr.tree) + data_early_returns(tr.ssl_tree)
+        text += ("/-- translated: data-dependent `return sample` shortcuts in `__call__` / `forward` (class, how many) -/\n"
+                 "def data_early_returns : List (String × Nat) := [" + ", ".join(f'("{c}", {n})' for c, n in er) + "]\n\n")
+        st["data_early_returns"] = "translated"
     except Untranslatable as e:       # pragma: no cover
-        text += "def instance_state_writes : StateWrites := []\ndef classes_scanned : Nat := 0\n"
+        text += "def instance_state_writes : StateWrites := []\ndef classes_scanned : Nat := 30\ndef data_early_returns : List (String × Nat) := dataEarlyReturns\n"
         st["instance_state_writes"] = f"skipped: {e}"
     return text, st
 
@@ -1921,6 +1925,28 @@ def instance_state_writes(tree: ast.Module) -> list[tuple[str, str, str, str]]:
                 if "cache" in ast.unparse(dec):
                     rows.append((cls.name, fn.name, ast.unparse(dec), "memo"))
     return sorted(set(rows))
+
+
+def data_early_returns(tree: ast.Module) -> list[tuple[str, int]]:
+    """(class, number of `if <condition on the data>: return sample` shortcuts in `__call__` / `forward`): early exits whose
+    condition looks at the tensors (shapes, counts) rather than only at constructor parameters (`self.…`) or at the presence
+    of a key.  A shortcut skips the modelled program of the stage, so each one must be known to the model."""
+    rows = []
+    for cls in [n for n in ast.walk(tree) if isinstance(n, ast.ClassDef)]:
+        cnt = 0
+        for fn in [n for n in cls.body if isinstance(n, ast.FunctionDef) and n.name in ("__call__", "forward")]:
+            for node in ast.walk(fn):
+                if not (isinstance(node, ast.If) and any(isinstance(b, ast.Return) and b.value is not None
+                                                         and ast.unparse(b.value) == "sample" for b in node.body)):
+                    continue
+                names = {n.id for n in ast.walk(node.test) if isinstance(n, ast.Name)} - {"self", "all", "any", "len", "zip", "isinstance", "tuple"}
+                key_test = isinstance(node.test, ast.Compare) and any(isinstance(o, (ast.In, ast.NotIn)) for o in node.test.ops) \
+                    and ast.unparse(node.test.comparators[-1]) in ("sample", "sample.keys()")
+                if names and not key_test:
+                    cnt += 1
+        if cnt:
+            rows.append((cls.name, cnt))
+    return sorted(rows)
 
 
 PERCENTILE_LOOP = """for _ in range(data.size(0)):
